@@ -10,7 +10,7 @@ from pyvc.engine import Contract
 BR = 'werkzeug.wrappers.base_response.BaseResponse'
 
 
-def items(pc, E):
+def items(pc, E, prefix='C03.T'):
     from pyvc.run import Item
     tmpl = E.refl['modules']['clastic.middleware.core']['consts'].get('_REQ_INNER_TMPL')
     if tmpl is None:
@@ -63,11 +63,11 @@ def items(pc, E):
     for why, line in res.undecided:
         pc.undecided.append((why, line, 'process_request template'))
     for o in res.obligations:
-        pc.add_item(Item(o.clause.replace('middleware.core.<process_request template>', 'C03.T/process_request'),
+        pc.add_item(Item(o.clause.replace('middleware.core.<process_request template>', prefix + '/process_request'),
                          'T', o.pc, o.goal, o.func, o.lineno, o.note, dict(o.extra, trail=o.trail)))
     # structure: no try statement, exactly the expected statements
     has_try = any(isinstance(n, ast.Try) for n in ast.walk(fnode))
-    it = Item('C03.T/process_request/no-try', 'T', [], z3.BoolVal(not has_try),
+    it = Item(prefix + '/process_request/no-try', 'T', [], z3.BoolVal(not has_try),
               note='the template contains no try/except, so exceptions propagate unchanged')
     it.by = 'evaluation'
     pc.add_item(it)
